@@ -13,7 +13,7 @@ PROPS = {
                  "DataType, TrackType-from-FourCC and the 16.16 wrapper; all 2^16 packed language codes through the mdhd "
                  "codec and all 26^3 three-letter codes; all 2^16 (profile, compatibility) pairs; all u8 for AOT / "
                  "frequency index / channel configuration; all 2^16 raw 8.8 values; all strings of length <= 4 over a "
-                 "40-symbol alphabet for the kind names. Textual FourCC form: all 2^32 codes in thorough, every 61st "
+                 "40-symbol alphabet for the kind names plus a dictionary of ~110 real-world names of the same kinds (all to be rejected). Textual FourCC form: all 2^32 codes in thorough, every 61st "
                  "code plus every table code and its 32 single-bit neighbours in quick (the one non-exhaustive stratum). "
                  "distinct_nontrivial counts domain points that lie in a defining table, are a single-bit neighbour of a "
                  "table code, or belong to one of the small (<= 2^16) domains, each counted once."),
@@ -35,7 +35,7 @@ PROPS = {
                  "are checked after every call; histories with rejected calls are re-run without them and the outputs compared byte for byte. "
                  "Strata: bounded-exhaustive (1-2 tracks, 54-symbol alphabet size{0,1,2} x delta{0,1,timescale} x cts{0,5,-5} x sync, all "
                  "histories of length <= 2 quick / <= 3 thorough) and seeded random (1-5 tracks of all five media kinds, 0-400 samples, "
-                 "biased sizes/durations/offsets/timescales, four interleavings, lazily added tracks). A case is non-trivial when some track "
+                 "biased sizes/durations/offsets/timescales, four interleavings, lazily added tracks, parameter sets partly in Annex B form, rejected write_sample AND rejected add_track calls interleaved). A case is non-trivial when some track "
                  "has >= 2 samples; distinct = distinct abstract shape (per track: media kind, sample-count bucket, #distinct sizes, #zero "
                  "sizes, position of first non-zero offset, first sync / sync class, #chunk flushes, trailing partial chunk; #rejected calls)."),
         "assumptions": [
@@ -52,7 +52,7 @@ PROPS = {
         "rule": ("same history space as C01; every output is decoded by the independent decoder harness/src/refdec.rs (no library code): "
                  "top-level tiling, ftyp first, exactly one moov and one mdat, strict container sizes, mdat size form and extent, per-track "
                  "table expansion (stts/ctts/stsc/stsz/stss/stco|co64) against the model, chunk containment and pairwise disjointness, bytes at "
-                 "computed offsets, mdhd/tkhd/mvhd durations and versions. Non-trivial / distinct as for C01."),
+                 "computed offsets, mdhd/tkhd/mvhd durations and versions; one history in sixteen is also muxed into a sink that already holds longer content and the range written must equal the output on an empty sink. Non-trivial / distinct as for C01."),
         "assumptions": [
             "trusted base: harness/src/refdec.rs written from ISO/IEC 14496-12 (validated against the canned files and the reference encoder)",
             "'within one tick' is read as: tkhd duration within [floor-1, ceil+1] of the exact rational sum*movie_ts/track_ts",
@@ -100,7 +100,7 @@ PROPS = {
                  "written and stored as extents). Scenarios place the media-data size at 2^32-1 / 2^32 (+1, -2, far above in thorough), a chunk offset "
                  "at 2^32-1 / 2^32 / 2^32+1 both by volume and by starting the output at stream position ~2^32, the media-header duration at "
                  "2^32-1 / 2^32 / 2^32+1, track/movie header durations across 2^32 independently of the media header via timescale ratios, and "
-                 "(thorough) a single chunk > 4 GiB; for every media kind. Outputs are judged by the independent decoder (64-bit form iff needed, no "
+                 "(thorough) a single chunk > 4 GiB; for every media kind; plus 6 000 (thorough 200 000) generated no-volume scenarios (boundary placed by the start position / by durations and timescales); half of all scenarios mux into a sink that takes small writes 1, 3 or 7 bytes at a time. Outputs are judged by the independent decoder (64-bit form iff needed, no "
                  "truncated field, versions) and read back completely through the real reader. distinct_nontrivial = distinct scenarios plus "
                  "distinct (scenario family, boundary side) pairs."),
         "assumptions": [
@@ -120,7 +120,7 @@ PROPS = {
                  "stsc run breaks, crossed with stco/co64, fixed/varying/zero sizes, ctts absent/v0/v1, stss absent/present, split or maximal "
                  "stts/ctts runs (6 dimension points per composition quick, all 48 thorough). Random stratum: 1-3 tracks with interleaved chunks, up to "
                  "5000 samples, gaps, moov before/after mdat, 64-bit and size-0 mdat; one movie in four carries the 64-bit size header on a pseudo-random "
-                 "fifth of the boxes below moov (table boxes included). Virtual-large stratum: a real movie header followed by a generated > 4 GiB tail, one "
+                 "fifth of the boxes below moov (table boxes included), half of those also 1-3 unknown boxes (free / skip / wide / uuid / made-up); split stts / ctts tables may carry empty runs. Virtual-large stratum: a real movie header followed by a generated > 4 GiB tail, one "
                  "chunk whose contents cross 2^32 (constant size and size table, chunk offset below / above 2^32). For every id in 0..=N+2 (+ far beyond) "
                  "sample_count, sample_offset and read_sample (bytes compared, start, delta, offset, sync) are compared with the model - in increasing order, "
                  "then again on the same reader backwards per track and in a shuffled order interleaving the tracks. distinct = distinct per-track "
@@ -138,7 +138,7 @@ PROPS = {
         "death_is_violation": True,
         "min_evals": {"quick": 250000, "thorough": 3000000},
         "rule": ("fragmented movies are synthesised by the reference encoder: 1-6 fragments, 1-3 tracks, 1-3 track fragments per movie fragment "
-                 "(also two of the same track), 0-40 samples per run (every 4000th movie: up to 1500), track fragments without any run box, base-data-offset explicit / default-base-is-moof / neither, tfhd default duration "
+                 "(also two of the same track), 0-40 samples per run (every 4000th movie: up to 1500), track fragments without any run box, 64-bit headers on boxes inside moof (one movie in six), base-data-offset explicit / default-base-is-moof / neither, tfhd default duration "
                  "or not, per-sample durations or not, composition offsets or not, tfdt v0/v1 (values beyond 2^32), data_offset absent / positive / "
                  "negative, trex defaults, optional styp/mehd; exhaustive over the 3 x 2^6 flag lattice for 1-2 fragments x 0-2 samples. Each movie is "
                  "read both as one stream and as init segment + media segment (read_fragment_header) and every sample's offset, bytes, start time, "
@@ -237,7 +237,7 @@ PROPS = {
                  "versions, flags, counts, lengths, offsets, values; all of them in thorough; in quick a 2000-per-seed sample plus the extremes 0 / max-1 / max "
                  "of EVERY field), directed size+count pairs (every count field together with the sizes of its 1..3 innermost enclosing boxes raised to "
                  "~2^24 / 2^31 / 2^32), pairwise substitution of near-by fields, byte-level havoc (flips, runs, deletes, duplicates, splices of two seeds, "
-                 "truncation, fourcc swaps), 17 amplifier families, and 16 000 (thorough 200 000) freshly generated plain and fragmented movies, each as a "
+                 "truncation, fourcc swaps), directed size+offset pairs, 18 amplifier families, and 16 000 (thorough 200 000) freshly generated plain and fragmented movies, each as a "
                  "file, as media segment against its own initialisation segment, and with one havoc variant. Every input is opened (read_header, and read_fragment_header against three opened initialisation segments) and, when it "
                  "opens, every accessor is called: movie and track accessors, metadata, to_json/summary/box_size of every parsed box, sample_count, "
                  "sample_offset and read_sample for ids 0..16, count-1..count+2, 2^31, 2^32-1 and track ids 0 / present / max+1. A panic hook records "
@@ -259,7 +259,7 @@ PROPS = {
         "rule": ("the C06 corpus and mutators under an instrumented stream: per call (open, open-as-fragment, each sample read / accessor group) at "
                  "most 4000 + 16 n stream operations and 1 MiB + 16 n transferred bytes (n = input length; the stream returns an error when exceeded, "
                  "so a reader that loops without consuming input terminates with evidence) and at most 50 ms + 2 us x n thread CPU time, counted only "
-                 "if the minimum over three runs exceeds it; 17 amplifier families (many tracks x many movie fragments, zero-size child in moov/trak/stbl/udta/moof, sub-header-size boxes "
+                 "if the minimum over three runs exceeds it; 18 amplifier families (many containers with a tiny child, many tracks x many movie fragments, zero-size child in moov/trak/stbl/udta/moof, sub-header-size boxes "
                  "at top level and inside moov, many traks whose parameter-set lengths reach the end of the file, counts of 2^32-1 without payload, "
                  "runs declaring 2^32-1 samples without fields, nested overrun chains, many rewinding meta boxes, many emsg, many sample entries whose "
                  "descriptor chain overruns into the following ones, many track fragments with long runs) are emitted at sizes n, 2n, 4n, 8n; between "
@@ -302,7 +302,7 @@ PROPS = {
                  "op budget; if it opens, every sample that the complete file yields is read: the result must be an error or absence, or equal in bytes, "
                  "start time, duration and composition offset to the complete file's sample (the library's own answer on the complete file is the "
                  "reference). Panic, budget overrun (hang) or a differing Ok(Some) is a violation. On an opened prefix the tracks are drained one after the other on ONE reader, so "
-                 "failing reads are followed by reads that must still succeed. distinct_nontrivial = distinct (file or generated kind, outcome class, "
+                 "failing reads are followed by reads that must still succeed; every other generated plain movie has the children of every stbl permuted. distinct_nontrivial = distinct (file or generated kind, outcome class, "
                  "eighth of the file the cut lies in) with the prefix opened: all samples equal / some equal some failing / none readable."),
         "assumptions": [
             "sample counts may shrink (fewer complete fragments): a missing sample (Ok(None)) or an error is accepted, only wrong data is not",
@@ -348,7 +348,7 @@ PROPS = {
                  "per-track trak / trafs / moof offsets compared for equality; (d) the same media segment (corpus segments and 40 000 / 600 000 generated "
                  "fragmented movies) is opened through parents with different histories - init reader, a segment reader, a segment reader of a segment "
                  "reader, a segment reader that has been read from, a reader of a file with header and fragments - and structures and full transcripts "
-                 "must be equal. distinct_nontrivial = distinct (previous call kind and outcome -> next call "
+                 "must be equal; (e) fragmented movies with 2-3 tracks, every other one with a foreign track id in one tfhd, are opened eight times and all transcripts must be identical; one scheduled call in 25 meets a transient I/O error of the stream. distinct_nontrivial = distinct (previous call kind and outcome -> next call "
                  "kind and outcome) transitions observed in the schedules plus distinct muxing history shapes."),
         "assumptions": [
             "the fresh-reader answer is the reference (metamorphic); correctness of the answer itself is C03/C09's business",
